@@ -266,8 +266,14 @@ def _ed_random(rng, counters, keys, maxlen):
             t.insert(pos, rng.choice(alpha))
         elif pos < len(t):
             del t[pos]
-    if rng.random() < 0.2:
+    r = rng.random()
+    if r < 0.15:
         t = [rng.choice(alpha) for _ in range(rng.randint(0, maxlen // 4))]
+    elif r < 0.35:
+        # two unrelated strings of independently chosen lengths (long ones included, either may be the longer one):
+        # the distance is then far from both 0 and the length difference
+        s = [rng.choice(alpha) for _ in range(rng.randint(0, maxlen))]
+        t = [rng.choice(alpha) for _ in range(rng.randint(0, maxlen))]
     pre = "".join(rng.choice(alpha) for _ in range(rng.choice([0, 0, 1, 5, 40])))
     suf = "".join(rng.choice(alpha) for _ in range(rng.choice([0, 0, 1, 5, 40])))
     s = pre + "".join(s) + suf
